@@ -38,6 +38,9 @@ func GenTree(t *rapid.T, cfg TreeCfg) *Tree {
 	if forkProb == 0 {
 		forkProb = 25
 	}
+	if forkProb < 0 {
+		forkProb = 0 // never fork: a linear chain
+	}
 	for i := 0; i < n; i++ {
 		var parent *Node
 		// leaves of the tree so far
